@@ -217,6 +217,8 @@ func (o *Options) populateReporter(c *cli.Context) {
 			o.ReporterConfig.InternalTemplateName = c.Lineage()[i].String("internal-template-name")
 		}
 	}
+	// dates are printed in the layout they are parsed in
+	o.ReporterConfig.DateFormat = o.GlobalConfig.DateFormat
 	o.ReporterConfig.SingleFood = c.String("single-food")
 	o.ReporterConfig.ElementGroupByFood = c.Bool("group-food")
 	o.ReporterConfig.SingleElement = c.String("single-element")
